@@ -117,6 +117,32 @@ def run(ctx: Ctx) -> None:
                 continue
             hugrs.append((f"gen:{seed}", h))
             ctx.nontriv(seed)
+        # HUGRs after mutation histories (deleted nodes, re-used indices: child lists not in index order)
+        import random as _random
+        from ..store_adapter import ImplError, StoreAdapter
+        rng = _random.Random(ctx.seed + 20)
+        for k in range(40 if quick else 400):
+            ad = StoreAdapter((-1, 0, 1))
+            live, kids, par, nxt = [0], {0: 0}, {}, 1
+            try:
+                for _ in range(rng.randint(4, 14)):
+                    r = rng.random()
+                    cand = [x for x in live if x != 0 and kids[x] == 0]
+                    if r < 0.6 or not cand:
+                        p_ = rng.choice(live)
+                        ad.apply({"a": "AddNode", "i": 1, "p": p_, "o": "a", "cnt": 2, "m": rng.choice(["none", "m"])})
+                        live.append(nxt); kids[nxt] = 0; kids[p_] += 1; par[nxt] = p_; nxt += 1
+                    else:
+                        x = rng.choice(cand)
+                        ad.apply({"a": "DeleteNode", "i": 1, "n": x})
+                        live.remove(x); kids[par[x]] -= 1
+                if len(live) >= 2 and rng.random() < 0.7:
+                    a_, b_ = rng.sample(live[1:], 2) if len(live) >= 3 else (live[1], live[1])
+                    ad.apply({"a": "AddLink", "i": 1, "sn": a_, "so": 0, "dn": b_, "do": 1})
+                    ad.apply({"a": "AddOrderLink", "i": 1, "sn": a_, "dn": b_})
+            except ImplError:
+                continue
+            hugrs.append((f"hist:{k}", ad.h[1]))
         pairs = []
         configs = [RenderConfig(palette=p, qualify_op_name=q) for p in PALETTE.values() for q in (False, True)]
         for name, h in hugrs:
@@ -175,7 +201,7 @@ def run(ctx: Ctx) -> None:
         # vacuity guard
         import copy
         neg = []
-        for p in pairs[:30]:
+        for p in [q for q in pairs if not v[q["name"]]["failing"]][:30]:
             if p["g"]["edges"]:
                 q = copy.deepcopy(p)
                 q["name"] += "|drop-edge|EdgesOnce"
